@@ -15,7 +15,7 @@ import (
 func init() {
 	Registry["C01"] = checkC01
 	Descriptions["C01"] = "Engine E1/E5 (decode side): newMessage and the *Parameters methods it calls are interpreted symbolically along every success path (branches from which only one side can still succeed are forced, genuine forks enumerated, range loops as one symbolic element); the origin of every exported message field is an expression over the BER tree and is compared with a table transcribed from RFC 4511 (position, accessor, list construction over the whole child list, order). " +
-		"C01-kindmap (protocolOp tag -> kind -> message type -> route operation compose to the RFC bijection; unknown tags are an error), C01-version (a Bind succeeds only if version == 3), C01-field / C01-list (field origins), C01-assert (every class/type/tag assertion on a table node carries the RFC's values), C01-reach (every well-formed shape has a success path), C01-readonly-data (between ReadPacket and the handler only non-consuming bytes.Buffer methods touch a received packet's Data). " +
+		"C01-kindmap (protocolOp tag -> kind -> message type -> route operation compose to the RFC bijection; unknown tags are an error), C01-version (a Bind succeeds only if version == 3), C01-field / C01-list (field origins), C01-assert (every class/type/tag assertion on a table node carries the RFC's values), C01-reach (every well-formed shape has a success path), C01-readonly-data (between ReadPacket and the handler only non-consuming bytes.Buffer methods touch a received packet's Data), C01-stream-sync (after a failed read the read loop never reads the connection again, unless the failure is a sentinel produced nowhere after a ber.ReadPacket call). " +
 		"Values are never inspected. Trusted: ldap.DecompileFilter, ber.ReadPacket."
 }
 
@@ -559,6 +559,70 @@ func checkC01(c *Ctx) {
 			})
 		}
 		R.Extra["C01-readonly-data/uses"] = nData
+	}
+	// ---- C01-stream-sync: every request is decoded from the position where the previous one ended. A read that fails may
+	// have consumed part of a request (ber.ReadPacket reads the header, then the content), so after a failed read the
+	// connection's stream is never read again: every path from the failure edge of readRequest in the read loop leaves
+	// the loop. A retry is accepted only under `errors.Is(err, S)` for a sentinel S of the module that is produced
+	// nowhere after a ber.ReadPacket call (a wait that consumed nothing, e.g. a failed Peek).
+	if m := c.serverModel(); m != nil && m.readReq != nil && m.serve != nil {
+		var failEdges []*ssa.BasicBlock
+		for _, r := range *m.readReq.Referrers() {
+			if ex, isEx := r.(*ssa.Extract); isEx && ex.Index == 1 {
+				for _, e := range errNilIfs(m.serve, ex) {
+					failEdges = append(failEdges, e.ErrSucc)
+				}
+			}
+		}
+		readSlice := syncReach(c.fn(G, "(*conn).readRequest"))
+		cleanSentinel := func(v ssa.Value) bool {
+			call, ok := v.(*ssa.Call)
+			if !ok || !an.CalleeIs(call.Common(), "errors", "Is") || len(call.Common().Args) != 2 {
+				return false
+			}
+			ld, ok := an.Strip(call.Common().Args[1]).(*ssa.UnOp)
+			if !ok {
+				return false
+			}
+			gl, ok := ld.X.(*ssa.Global)
+			if !ok || gl.Pkg == nil || !strings.HasPrefix(gl.Pkg.Pkg.Path(), an.ModPath) {
+				return false
+			}
+			// the sentinel is produced nowhere after a ber.ReadPacket call
+			used := false
+			for f := range readSlice {
+				if !an.InModule(f) {
+					continue
+				}
+				var uses, reads []ssa.Instruction
+				an.Instrs(f, func(in ssa.Instruction) {
+					if u, isU := in.(*ssa.UnOp); isU && u.X == ssa.Value(gl) {
+						uses = append(uses, in)
+					}
+					if ci, isCI := in.(ssa.CallInstruction); isCI && callReaches(ci, func(cc *ssa.CallCommon) bool { return an.CalleeIs(cc, an.PkgBer, "ReadPacket") }, map[*ssa.Function]bool{}) {
+						reads = append(reads, in)
+					}
+				})
+				for _, u := range uses {
+					used = true
+					for _, rd := range reads {
+						if an.Search(an.After(rd), isInstr(u), nil) != nil {
+							return false
+						}
+					}
+				}
+			}
+			return used
+		}
+		key := "(*conn).serveRequests: no read after a failed read"
+		if len(failEdges) == 0 {
+			R.Unknown("C01-stream-sync", key, c.pos(m.readReq), "no test of readRequest's error found in the read loop")
+		}
+		for _, fb := range failEdges {
+			w := an.Search(an.Point{B: fb, I: 0}, isInstr(m.readReq), func(in ssa.Instruction) bool { return hasFact(in.Block(), true, cleanSentinel) })
+			R.Check(w == nil, "C01-stream-sync", key, c.pos(m.readReq), "every path from the failure edge of readRequest leaves the read loop (or retries only after a wait that consumed nothing)",
+				"after a failed read the loop reads the connection again ("+c.trail(w)+"): a read that gave up in the middle of a request (timeout inside ber.ReadPacket) has consumed part of it, and the next request is decoded from the middle of the client's bytes")
+		}
 	}
 	R.Floor("C01-readonly-data", 2)
 	R.Floor("C01-field", 20)
